@@ -161,7 +161,10 @@ func runCase(id int, seed uint64, cls, engine string, skipped []string, scratch 
 	var inner storage.KvStorage
 	var closer func()
 	var err error
-	if engine == lib.EngTiKV {
+	var recordFault int32
+	if engine == engTiKVHooked {
+		inner, closer, err = newHookedTiKV(&recordFault, cd.EncodeObjectKey([]byte("/registry/pods/b"), 0), cd.EncodeObjectKey([]byte("/registry/skip/x"), 0))
+	} else if engine == lib.EngTiKV {
 		inner, closer, err = lib.NewTiKVSplit(cd.EncodeObjectKey([]byte("/registry/pods/b"), 0), cd.EncodeObjectKey([]byte("/registry/pods/c"), 3),
 			cd.EncodeObjectKey([]byte("/registry/skip/x"), 0))
 	} else {
@@ -189,13 +192,34 @@ func runCase(id int, seed uint64, cls, engine string, skipped []string, scratch 
 	}
 	defer be.Retire()
 	sc := lib.CsScanner(kv, prefix, time.Hour)
+	es := newEtcdFront(be.B)
 	rnd := lib.NewRand(seed)
 	nranges := 1 + len(skipped)
+	// one read: through the Backend / scanner, or through the etcd front end (every range request with a non-empty
+	// range_end is Backend.List underneath: same label). On the hooked TiKV a read BELOW the floor is made with the
+	// point read of the compaction record failing: an engine failure is no licence to serve it
+	var floor uint64
+	readOnce := func(kind string, rev uint64, limit int64) (isErr bool, op string, faulted bool) {
+		eff := rev
+		if eff == 0 || kind == "count" {
+			eff = be.B.GetCurrentRevision()
+		}
+		if engine == engTiKVHooked && eff < floor {
+			faulted = true
+			atomic.StoreInt32(&recordFault, 1)
+			defer atomic.StoreInt32(&recordFault, 0)
+		}
+		if isEtcdKind(kind) {
+			return etcdRange(es, kind, rev, limit), lib.App("CList", lib.N(rev), lib.N(uint64(limit))), faulted
+		}
+		isErr, op = doRead(be, sc, kind, rev, limit)
+		return isErr, op, faulted
+	}
 
 	var steps []string
 	var js []interface{}
 	outc := map[string]bool{}
-	floor, last := uint64(0), uint64(0)
+	last := uint64(0)
 	sawErr, sawData, lowered := false, false, false
 	record := func(op, obs string, j map[string]interface{}) {
 		cur := be.B.GetCurrentRevision()
@@ -298,14 +322,21 @@ func runCase(id int, seed uint64, cls, engine string, skipped []string, scratch 
 				map[string]interface{}{"op": "compact", "rev": rev, "fault": p.fault, "hdr": hdr, "err": err != nil})
 		default:
 			rev := resolve(p.rel, cur, floor, last)
-			isErr, op := doRead(be, sc, p.kind, rev, p.limit)
+			kind := p.kind
+			if kind == "list" && rnd.Chance(1, 3) { // the same read as an etcd client sends it
+				kind = []string{"etcd-all", "etcd-pods", "etcd-single", "etcd-ab"}[rnd.Intn(4)]
+			}
+			isErr, op, faulted := readOnce(kind, rev, p.limit)
 			if isErr {
 				sawErr = true
 			} else {
 				sawData = true
 			}
-			outc["read-"+p.kind+"-"+rresCoq(isErr)] = true
-			record(op, lib.App("ORead", rresCoq(isErr)), map[string]interface{}{"op": p.kind, "rev": rev, "limit": p.limit, "err": isErr})
+			outc["read-"+kind+"-"+rresCoq(isErr)] = true
+			if faulted {
+				outc["read-with-failing-record-read"] = true
+			}
+			record(op, lib.App("ORead", rresCoq(isErr)), map[string]interface{}{"op": kind, "rev": rev, "limit": p.limit, "err": isErr, "record_read_fails": faulted})
 		}
 	}
 	if sweep {
@@ -314,17 +345,21 @@ func runCase(id int, seed uint64, cls, engine string, skipped []string, scratch 
 			kind  string
 			limit int64
 		}
-		paths := []path{{"list", 0}, {"list", 1}, {"list", 2}, {"list", 500}, {"scancount", 0}, {"stream", 0}, {"streampart", 0}}
+		paths := []path{{"list", 0}, {"list", 1}, {"list", 2}, {"list", 500}, {"scancount", 0}, {"stream", 0}, {"streampart", 0},
+			{"etcd-single", 0}, {"etcd-single", 1}, {"etcd-pods", 0}, {"etcd-all", 3}}
 		for rev := uint64(initRev - 1); rev <= cur+1; rev++ {
 			for _, pth := range paths {
-				isErr, op := doRead(be, sc, pth.kind, rev, pth.limit)
+				isErr, op, faulted := readOnce(pth.kind, rev, pth.limit)
 				if isErr {
 					sawErr = true
 				} else {
 					sawData = true
 				}
 				outc["read-"+pth.kind+"-"+rresCoq(isErr)] = true
-				record(op, lib.App("ORead", rresCoq(isErr)), map[string]interface{}{"op": pth.kind, "rev": rev, "limit": pth.limit, "err": isErr, "sweep": true})
+				if faulted {
+					outc["read-with-failing-record-read"] = true
+				}
+				record(op, lib.App("ORead", rresCoq(isErr)), map[string]interface{}{"op": pth.kind, "rev": rev, "limit": pth.limit, "err": isErr, "sweep": true, "record_read_fails": faulted})
 			}
 		}
 		isErr, op := doRead(be, sc, "count", 0, 0)
@@ -441,6 +476,11 @@ func main() {
 	}
 	jobs = append(jobs, zig(false, nil, lib.EngMem), zig(false, []string{"/registry/skip", "/registry/leases"}, lib.EngMem),
 		zig(true, []string{"/registry/skip"}, lib.EngMem), zig(true, []string{"/registry/skip"}, lib.EngTiKV), zig(false, nil, lib.EngBadger))
+	// the TiKV adapter with the point read of the compaction record failing during every read below the floor
+	jobs = append(jobs, zig(false, nil, engTiKVHooked), zig(true, []string{"/registry/skip"}, engTiKVHooked))
+	hk := corpus([]uint64{111, 103}, 105)
+	hk.engine = engTiKVHooked
+	jobs = append(jobs, hk)
 	classes := []string{"increasing", "repeated", "decreasing", "zero", "above", "zigzag", "zigzag", "mixed", "mixed", "mixed"}
 	engines := []string{lib.EngMem}
 	if args.Tier != "quick" {
@@ -450,7 +490,9 @@ func main() {
 		cls := classes[i%len(classes)]
 		j := job{cls: cls, engine: engines[i%len(engines)], plans: genPlan(rnd, cls), sweep: rnd.Chance(2, 3), unc: -1, seed: rnd.U64()}
 		if args.Tier == "quick" && i%25 == 24 {
-			j.engine = []string{lib.EngBadger, lib.EngTiKV}[(i/25)%2]
+			j.engine = []string{lib.EngBadger, lib.EngTiKV, engTiKVHooked}[(i/25)%3]
+		} else if args.Tier != "quick" && i%16 == 15 {
+			j.engine = engTiKVHooked
 		}
 		if rnd.Chance(1, 3) {
 			j.skipped = [][]string{{"/registry/skip"}, {"/registry/skip", "/registry/leases"}}[rnd.Intn(2)]
@@ -468,6 +510,11 @@ func main() {
 		seed    uint64
 	}
 	var ojobs []ojob
+	for _, e := range []string{lib.EngMem, lib.EngBadger, lib.EngTiKV} {
+		for _, sc := range readRaceCorpus() {
+			ojobs = append(ojobs, ojob{engine: e, sched: sc, seed: 9})
+		}
+	}
 	for _, e := range []string{lib.EngMem, lib.EngBadger} {
 		for ci, sc := range overlapCorpus() {
 			var sk []string
@@ -514,7 +561,7 @@ func main() {
 	}
 	w.Stats.Extra["partition_streams"] = partitionStreams
 	w.Stats.Extra["partitions_answering_differently"] = mixedPartitions
-	if err := w.Finish("histories from the five request classes (increasing, repeated, decreasing, zero, above-current) and mixtures, interleaved with write bursts, an optional unknown-outcome write (retry-queue cap) and List/limited List/Count/scanner Count/ListByStream at revisions around the floor, followed by a sweep over every revision from init-1 to current+1 through every read path (List unlimited and with limits 1, 2, 500, scanner Count, ListByStream whole and per advertised partition); zigzag class = at least three compactions high/low/in-between, some through a second Backend on the same store, with 1-3 compaction ranges; distinct = SHA-256 of the Coq case; overlap cases: 2-3 Backend.Compact calls on logical threads advanced one engine call at a time (the calls touching the compaction record are the yield points), fixed schedules (older request parked before its commit while the newer completes, the symmetric order, both read first, on top of an earlier floor, the witness of finding C08-F1, and - on memkv - the older request parked INSIDE its batch right before the engine Commit while the newer one is advanced: blocked until that commit) and random interleavings with reads in between, on memkv and Badger; non-trivial = at least one refused and one served read (and, for overlap cases, a step taken while another thread was alive)"); err != nil {
+	if err := w.Finish("histories from the five request classes (increasing, repeated, decreasing, zero, above-current) and mixtures, interleaved with write bursts, an optional unknown-outcome write (retry-queue cap) and List/limited List/Count/scanner Count/ListByStream at revisions around the floor, followed by a sweep over every revision from init-1 to current+1 through every read path (List unlimited and with limits 1, 2, 500, scanner Count, ListByStream whole and per advertised partition); reads also through etcd.RPCServer.Range (prefix, interval, [key, key+0x00) with limits 0/1/3); on a TiKV mock with an RPC interceptor every read below the floor is made while the point read of the compaction record fails with a key error; zigzag class = at least three compactions high/low/in-between, some through a second Backend on the same store, with 1-3 compaction ranges; distinct = SHA-256 of the Coq case; overlap cases: 2-3 Backend.Compact calls on logical threads advanced one engine call at a time (the calls touching the compaction record are the yield points), fixed schedules (older request parked before its commit while the newer completes, the symmetric order, both read first, on top of an earlier floor, the witness of finding C08-F1, and - on memkv - the older request parked INSIDE its batch right before the engine Commit while the newer one is advanced: blocked until that commit) and random interleavings with reads in between, on memkv and Badger; non-trivial = at least one refused and one served read (and, for overlap cases, a step taken while another thread was alive)"); err != nil {
 		fmt.Fprintln(os.Stderr, err)
 		os.Exit(2)
 	}
